@@ -327,7 +327,7 @@ func CheckE1(t *testing.T, prop string, cfg GenCfg, nontrivial func(*Case, *Worl
 			// a proven deadlock of the Watcher is C01/C05/C07's finding; here it
 			// only means that nothing more can be learnt about this property
 			for _, f := range w.Findings {
-				if f.Class == FWedge {
+				if f.Class == FWedge && strings.Contains(f.Detail, "does not return") {
 					unownedWedges++
 				}
 			}
